@@ -125,19 +125,20 @@ Qed.
 
 (* C17 (complex), with the hypothesis of the property text: in a session satisfying cplx_inv,
    if both components of every complex influence of y are present, the default complex budget
-   has one row per real influence and one row per complex influence *)
+   has one row per real influence and one row per complex influence, each with u_bar of its
+   components of uncertainty (independent or dependent) *)
 Theorem complex_budget_present s ncx (yre yim : KTypes.ureal R) t m k rv :
   wf_real s yre -> wf_real s yim -> cplx_inv s ->
   both_present s (keys (N:=RNum) (ext_re RNum yre yim)) ->
-  exists rows, gather RNum false s ncx (@YComplex RNum yre yim) (default_opts t m k rv) = Ok rows /\
+  exists rows, gather RNum s ncx (@YComplex RNum yre yim) (default_opts t m k rv) = Ok rows /\
                crows s yre yim (keys (N:=RNum) (ext_re RNum yre yim)) rows.
 Proof.
   intros W1 W2 Hinv HB. apply complex_budget_paired; try assumption.
   apply paired_of_present; try assumption.
   - apply sorted_key_sorted. destruct W1, W2. apply ext_re_sorted; assumption.
-  - intros k0 Hk0. unfold ext_re, extend in Hk0. rewrite !keys_merge_w in Hk0.
+  - intros k0 Hk0. apply ext_re_keys in Hk0.
     destruct W1 as [_ _ Lu1 Ld1], W2 as [_ _ Lu2 Ld2].
-    destruct Hk0 as [[[H|H]|H]|H];
+    destruct Hk0 as [[H|H]|[H|H]];
       [destruct (Lu1 k0 H) as (l & El & _) | destruct (Ld1 k0 H) as (l & El & _)
        | destruct (Lu2 k0 H) as (l & El & _) | destruct (Ld2 k0 H) as (l & El & _)]; exists l; exact El.
 Qed.
